@@ -4,6 +4,8 @@ from contracts import notification as _n   # noqa: F401
 
 DEAD_NEW = "forall_new(Interrupt, lambda i: i.sub is None and (i._revoked or not i.scheduled))"
 NS = ["Notification", "Interrupt.parked_or_scheduled"]
+default_scope(NS + ["After", "Moment", "Delay", "Interrupt.after_wakeup_time", "Condition"])
+
 
 # ---------------------------------------------------------------- C14
 contract("usim._primitives.timing.interval",
@@ -102,7 +104,7 @@ contract("usim._primitives.timing.After._ensure_trigger",
          modifies=["After._scheduled@self", "After.trigger_due@self", "WaitQueue.qlen@loop._activations", "WaitQueue.qitems@loop._activations"],
          props=["C01", "C03"])
 
-contract("usim._primitives.timing.After._async_trigger",
+contract("usim._primitives.timing.After._async_trigger", allocates=False,
          params={"self": REF("After")},
          # K3 delivery facts for the signal-less trigger activation (queued with key `date`)
          assume_entry=["loop.time == self.date", "self.trigger_due"],
@@ -185,7 +187,7 @@ contract("usim._primitives.timing.Time.__add__",
                   "implies(other > 0, isinstance(result, Delay) and cast(result, Delay).duration == other)"],
          modifies=[], check_frame=False, props=["C01"])
 
-contract("usim._primitives.timing.Moment.__unsubscribe__",
+contract("usim._primitives.timing.Moment.__unsubscribe__", allocates=False,
          params={"self": REF("Moment"), "waiter": ANY, "interrupt": REF("Interrupt")},
          requires=["(interrupt.sub is None and not interrupt.scheduled) or "
                    "(interrupt.sub is self._transition and interrupt.target is waiter)"],
